@@ -48,7 +48,10 @@ def gen_hint(rng, for_block=False):
 def hint_classes(raw: str | None, is_block: bool) -> set[str]:
     """Classes of a *stored* hint (value of .name_hint after the setter) that the known defects depend on."""
     out = set()
-    if not raw:
+    if raw is None:
+        return out
+    if raw == "":
+        out.add("stripped-to-empty")
         return out
     if not raw.isascii():
         out.add("non-ascii")
@@ -63,6 +66,8 @@ def hint_classes(raw: str | None, is_block: bool) -> set[str]:
 
 def sanitise_hint(raw: str, cls: str, is_block: bool) -> str | None:
     """A hint with the same 'shape' but outside class `cls`."""
+    if cls == "stripped-to-empty":
+        return None
     if cls == "non-ascii":
         s = "".join(c if c.isascii() else "u" for c in raw)
         return s
@@ -92,9 +97,15 @@ def named_objects(root):
     return out
 
 
-def assign_hints(rng, root, density=0.7):
-    """Give arbitrary accepted hints to values and blocks through the public setter. Returns counters."""
+RISKY = ["non-ascii", "stripped-to-empty", "suffix-retained", "block-default-name", "block-hint"]
+
+
+def assign_hints(rng, root, density=0.7, allowed=None):
+    """Give arbitrary accepted hints to values and blocks through the public setter. `allowed` = set of risky hint
+    classes (see hint_classes) this module may contain; hints falling in another risky class are replaced by
+    their neutral counterpart (again through the setter). Returns counters."""
     c = {"hints_set": 0, "hints_rejected_by_setter": 0, "hints_stripped_to_empty": 0}
+    allowed = set(RISKY) if allowed is None else set(allowed)
     shared = [gen_hint(rng) for _ in range(3)]  # repeated hints inside one module -> printer must disambiguate
     for obj, is_block in named_objects(root):
         if rng.random() > density:
@@ -113,9 +124,14 @@ def assign_hints(rng, root, density=0.7):
         except ValueError:
             c["hints_rejected_by_setter"] += 1
             continue
+        for _ in range(4):
+            bad_cls = [k for k in RISKY if k in hint_classes(obj.name_hint, is_block) and k not in allowed]
+            if not bad_cls:
+                break
+            obj.name_hint = sanitise_hint(obj.name_hint, bad_cls[0], is_block)
         if obj.name_hint:
             c["hints_set"] += 1
-        else:
+        elif obj.name_hint == "":
             c["hints_stripped_to_empty"] += 1
     return c
 
@@ -327,8 +343,20 @@ class IRGen:
 
 
 def gen_module(rng, hint_density=0.7):
-    """(module, counters, features). The module is verified by the caller."""
+    """(module, counters, features). The module is verified by the caller.
+    60% of the modules carry only hints outside the classes with known defects (still hostile: punctuation,
+    digits, near-collisions a / a_1 / a_2, repeated hints); the others enable each risky class with p=1/2."""
     g = IRGen(rng, max_depth=rng.choice([1, 2, 3]))
     m = g.module()
-    c = assign_hints(rng, m, density=hint_density)
+    if rng.random() < 0.6:
+        allowed = set()
+    else:
+        allowed = {k for k in RISKY if rng.random() < 0.5}
+        g.features.add("risky-hint-profile")
+    if rng.random() < 0.9:
+        # non-ASCII attribute dictionary keys are their own (string literal) mechanism: keep them rare
+        for op in m.walk():
+            for k in [k for k in op.attributes if not k.isascii()]:
+                op.attributes["k" + str(len(k))] = op.attributes.pop(k)
+    c = assign_hints(rng, m, density=hint_density, allowed=allowed)
     return m, c, g.features
